@@ -74,7 +74,22 @@ func VerifH_ecies_point_encoding() {
 	if verifrt.Symbolic() {
 		verifrt.Assume(verifh.OnCurveBytes(xb, yb))
 	} else {
-		verifrt.NativeSkip("arbitrary coordinates are not on the real curve")
+		// natively: a real P-256 point k*G whose coordinates have zx / zy leading zero bytes
+		k := int64(0)
+		switch {
+		case zx == 0 && zy == 0:
+			k = 1
+		case zx == 0 && zy == 1:
+			k = 43
+		case zx == 1 && zy == 0:
+			k = 379
+		case zx == 1 && zy == 1:
+			k = 49350
+		default:
+			verifrt.NativeSkip("no small multiple of G with 8 or 9 leading zero bytes")
+		}
+		X, Y := curve.ScalarBaseMult(big.NewInt(k).Bytes())
+		xb, yb = X.FillBytes(make([]byte, 32)), Y.FillBytes(make([]byte, 32))
 	}
 	pt := ECPoint{X: new(big.Int).SetBytes(xb), Y: new(big.Int).SetBytes(yb)}
 	enc, err := PointEncode(curve, format, pt)
